@@ -69,7 +69,11 @@ class DPT2ByteFloat(DPTNumeric):
                 exponent += 1
                 knx_value /= 2
 
-            mantisse = round(knx_value) & 0x7FF
+            mantisse = round(knx_value)
+            if not cls._test_boundaries(float(mantisse << exponent) / 100):
+                # rounding shall not leave the value range (eg. 670760 -> 670760.96)
+                mantisse -= 1 if mantisse > 0 else -1
+            mantisse &= 0x7FF
             msb = exponent << 3 | mantisse >> 8
             if knx_value < 0:
                 msb |= 0x80
